@@ -226,7 +226,7 @@ def _canon(x):
     if isinstance(x, (list, tuple)):
         return [_canon(v) for v in x]
     if isinstance(x, float):
-        return {"$f": repr(x)}
+        return {"$f": repr(x + 0.0)}  # -0.0 and 0.0 are the same value of the same JSON type
     if isinstance(x, bool) or x is None or isinstance(x, (int, str)):
         return x
     return {"$repr": repr(x)}
